@@ -33,7 +33,7 @@ MANIFEST = {
 }
 GEN = ["Eye"]
 MODELS = ["OptiVerif.Model.Eye", "OptiVerif.Model.NumList", "OptiVerif.Model.FiberNL", "OptiVerif.Gen.Eye"]
-RULE = ("cases = two-level NRZ waveforms (random / PRBS7 patterns of 64..256 slots, one PRBS13 record of 8191 slots (longer than the 4096-slot window), both symbols present, sps in {8,16,32}, "
+RULE = ("cases = two-level NRZ waveforms (random / PRBS7 patterns of 64..256 slots, one PRBS13 record of 8191 slots (longer than the 4096-slot window, carried as electrical_signal(signal, noise)), 4-5 % / 95-96 % mark density with >= 16 marks at sigma = 5 %, both symbols present, sps in {8,16,32}, "
         "sps_resamp=128 (a few without resampling, tie only), levels a<b with b-a log-uniform in [1e-3,100] V and offsets "
         "{0,-d/2,-3d,+2d} plus pedestals |a|/(b-a) in {30,100,1000} of both signs, noise sigma in [0.5%,5%] of b-a, Bessel LPF at 0.7..1.0 R) each run twice (a third of the even-length ones as ONE electrical_signal(signal, noise) object evaluated three times with the twin built from that object's arrays afterwards, operands monitored for modification): as is and scaled by "
         "alpha in [1e-3,1e3] (log-uniform) with an offset beta (up to 1000 swings, and 1e5..2e7 swings for a few), same numpy seed; degenerate inputs (constant, single level) for "
@@ -95,9 +95,18 @@ def gen_cases(rng, tier):
                       "spsr": 128, "seed": rng.getrandbits(31)})
     # records longer than the default 4096-slot window and not a multiple of it (PRBS13 = 8191 slots; 6001 random slots)
     longrec = [(8, 8191, "prbs13")] if tier == "quick" else [(8, 8191, "prbs13"), (8, 6001, "random"), (16, 5000, "random"), (8, 4097, "random")]
+    # low mark density (4-5 % ones) and its mirror image at the top of the noise range: the record mean then lies within the
+    # noise of the majority level.  At least 16 marks: with fewer the central windows hold too few independent samples for
+    # the statement's spread band (sigma/2 lower bound) to be a fair demand on ANY estimator (see the report on sparse patterns)
+    sparse = [("sparse", 400, 20), ("dense", 400, 16), ("sparse", 512, 24), ("dense", 400, 20)]
+    for j, (pat, nsl, marks) in enumerate(sparse * (1 if tier == "quick" else 5)):
+        d = 10 ** rng.uniform(-3, 2)
+        cases.append({"kind": "eye", "sps": [8, 16, 32][j % 3], "nsl": nsl, "pattern": pat, "marks": marks, "a": rng.choice([0.0, -d / 2, 2 * d]),
+                      "d": d, "sigma": 0.05, "bwf": rng.uniform(0.7, 1.0), "alpha": 10 ** rng.uniform(-3, 3), "beta": 0.0, "spsr": 128,
+                      "seed": rng.getrandbits(31)})
     for sps, nsl, pat in longrec:
         d = 10 ** rng.uniform(-3, 2)
-        cases.append({"kind": "eye", "sps": sps, "nsl": nsl, "pattern": pat, "a": rng.choice([0.0, -d / 2, 2 * d]), "d": d,
+        cases.append({"kind": "eye", "sps": sps, "nsl": nsl, "pattern": pat, "split": pat == "prbs13", "a": rng.choice([0.0, -d / 2, 2 * d]), "d": d,
                       "sigma": rng.uniform(0.01, 0.04), "bwf": rng.uniform(0.7, 1.0), "alpha": 10 ** rng.uniform(-3, 3), "beta": 0.0,
                       "spsr": 128, "seed": rng.getrandbits(31)})
     # no resampling / other resampling factors: correspondence only (outside the statement's quantifier)
@@ -132,6 +141,15 @@ def _bits(case, r):
             out.append(st[12])
             st = [nb] + st[:12]
         bits = np.array(out)
+    elif case["pattern"] in ("sparse", "dense"):
+        # low mark density (few ones) / its mirror image (few zeros): `k` marks at random places
+        k = max(1, int(case["marks"]))
+        bits = np.zeros(n, dtype=int)
+        bits[r.choice(np.arange(2, n), size=min(k, n - 2), replace=False)] = 1
+        if case["pattern"] == "dense":
+            bits = 1 - bits
+        bits[0], bits[1] = (0, 1)
+        return bits
     elif case["pattern"] == "square":
         bits = np.arange(n) % 2
     else:
